@@ -95,8 +95,11 @@ PROPS = {
                     # what may run in parallel is decided by the plan: layouts against the model's, where groups have several members
                     plan("funnel,plan", quick=500),
                     # the hypothesis "depends only on the resources it declared" rests on the provided system-data types declaring what they borrow
-                    {"engine": "sysdata", "args": {}, "quick": {"exhaust-upto": 6, "samples": 12, "pre-samples": 6}, "thorough": {"exhaust-upto": 8, "samples": 100, "pre-samples": 30}}],
-        "also": {"C06": ["reads()", "writes()", "borrows"]},
+                    {"engine": "sysdata", "args": {}, "quick": {"exhaust-upto": 6, "samples": 12, "pre-samples": 6}, "thorough": {"exhaust-upto": 8, "samples": 100, "pre-samples": 30}},
+                    # the asynchronous way of dispatching in parallel: after dispatch + wait (with running() / world() polled in between)
+                    # every ordinary and every thread-local system has run exactly as often as sequential dispatches would have run it
+                    {"engine": "asyncd", "args": {}, "quick": {"cases": 150, "hist": 1}, "thorough": {"cases": 3000, "hist": 2}}],
+        "also": {"C06": ["reads()", "writes()", "borrows"], "C15": ["tl-count", "run-count", "each-once"]},
         "aspects": TRACE + ["effects"],
         "assumptions": [RAYON, CELL, "the harness systems' update function (sys.rs::mix / Model/Effect.lean::mix) stands for 'behaviour that depends only on own state and declared resources'"],
     },
@@ -161,8 +164,10 @@ PROPS = {
         "statement": "for every log accepted by the driver's panic-aware acceptor (PR.run): C14_panic_reported_iff, C14_dependents_dont_run, C14_at_most_once, C14_nothing_left_open; plus the declarative PTraces semantics (C14_panicked_iff, C14_payload_source)",
         "engines": [trace("flat,base,batch,tl,flat", quick=60, panics=True), trace("tlbatch", quick=30, thorough=1000, panics=True),
                     # a system whose fetch fails half-way (a later member is refused): what the earlier members took is given back
-                    {"engine": "sysdata", "args": {}, "quick": {"exhaust-upto": 5, "samples": 10, "pre-samples": 6}, "thorough": {"exhaust-upto": 8, "samples": 100, "pre-samples": 30}}],
-        "also": {"C06": ["[unwind]", "[release]"]},
+                    {"engine": "sysdata", "args": {}, "quick": {"exhaust-upto": 5, "samples": 10, "pre-samples": 6}, "thorough": {"exhaust-upto": 8, "samples": 100, "pre-samples": 30}},
+                    {"engine": "parseq", "args": {}, "quick": {"cases": 0}, "thorough": {"cases": 0}}],
+                    # hand-written par / seq trees: both children of a par node panic in one dispatch (the static trees of the parseq engine only)
+        "also": {"C06": ["[unwind]", "[release]"], "C16": ["par-panics"]},
         "aspects": TRACE,
         "assumptions": [RAYON, "rayon re-raises a job's panic in the caller of install after the stage's started jobs finished; unwinding drops guards; RwLock read locks do not poison"],
     },
@@ -276,9 +281,11 @@ PROPS["C08"] = {
 }
 PROPS["C09"] = {
     "statement": "C09.refines_state / refines_out (every operation commutes with abs : World -> (ResId -> Option Token) and answers what the map answers), C09.typed_linear_invariant (type tag = key type; conservation of values), C09.mismatch_panics, C09.linear / dropped_exactly_once — all over histories that include values whose Drop panics and closures that panic; C09.insert_replaces_when_drop_panics, or_insert_occupied_drop_panics, or_insert_with_closure_panics, entry_stores_before_caller_panics, dropReturned_keeps_linear, dropWorld_panic_at_most_once (the interrupted drop of the world drops or leaks each value, never twice)",
-    "engines": [world(), world(quick=300, thorough=600, nopar=True)],
+    "engines": [world(), world(quick=300, thorough=600, nopar=True),
+                # exec = setup + fetch for every provided system-data type and setup handler (also a second exec after remove_by_id)
+                {"engine": "sysdata", "args": {}, "quick": {"exhaust-upto": 5, "samples": 8, "pre-samples": 4}, "thorough": {"exhaust-upto": 8, "samples": 100, "pre-samples": 30}}],
     # "presence queries and fetches agree": a fetch that answers None for a present resource
-    "also": {"C08": ["None was returned although the resource is present"]},
+    "also": {"C08": ["None was returned although the resource is present"], "C06": ["World::exec"]},
     "aspects": ["outcome", "state", "ghost"],
     "assumptions": [TYPES, "the unchecked downcasts (Fetch::deref, get_mut, remove) are modelled as 'type tag equals key type => the cast is right'"],
 }
